@@ -8,23 +8,44 @@ from checks import c13 as C13
 TRUST = ("Lean 4.33 kernel; axioms at most propext/Classical.choice/Quot.sound (audited per run); "
          "hand-written selection model tied to the C++ by the exact correspondence harness (differential, generator-bounded); ")
 MANIFEST = dict(
-  text=("Theorems (Props/C14.lean) about the model of IndicatorBasedSelection for every rank vector (duplicates, single front, mu = n), every "
-        "1 <= mu <= n and every indicator returning K distinct positions: exactly mu individuals are selected, no selected individual has a worse "
-        "rank than an unselected one, whole better fronts are kept; ElitistSelection keeps the mu best for every tie order of its sort; with C13 the ranks are "
-        "rankSpec; steady-state step with the hypervolume indicator never decreases hvSpec (spec-level lemma). The selection model is tied to the real "
-        "IndicatorBasedSelection<HypervolumeIndicator|CrowdingDistance|AdditiveEpsilonIndicator|NSGA3Indicator> and ElitistSelection by exact correspondence "
-        "on integer populations; the optimizer-level clauses (|solution| = mu, reported value = f(closest feasible point) bit-exactly, in-box for SBX/polynomial-"
-        "mutation algorithms, hypervolume monotonicity of steady-state MO-CMA-ES and SMS-EMOA w.r.t. a fixed reference) are checked by an independent "
-        "oracle after init and after every step of the real MOCMA, SteadyStateMOCMA, SMS-EMOA, NSGA-II, NSGA-III, MOEA/D, RVEA runs (fixed seeds)."),
-  note=TRUST + "the optimizer-level clauses are runtime evidence (oracle over generated runs), not theorems: variation operators, step-size adaptation and "
-       "random streams are not modelled; which individual of the last front an indicator discards is compared only through the count (the indicator is a "
-       "parameter of the model; hypervolume contributions themselves are C13). TournamentSelection is exercised inside the optimizer runs only.",
-  technique="Lean 4 proofs about the selection model + exact differential correspondence + oracle-checked runs of the real optimizers (ASan/UBSan)",
+  text=("Theorems (Props/C14.lean, 20) about executable Lean models tied to the real classes. Selection: for every rank vector (duplicates, single front, "
+        "mu = n), every 1 <= mu <= n, IndicatorBasedSelection marks exactly mu individuals, never keeps a worse non-domination rank while discarding a "
+        "better one, keeps whole better fronts; the hypothesis 'the indicator returns K distinct positions of the front' is now DISCHARGED for the modelled "
+        "indicators: the leastContributors loop shared by HypervolumeIndicator / CrowdingDistance / AdditiveEpsilonIndicator returns K distinct positions for "
+        "every leastContributor that returns a valid position, and the models of the hypervolume indicator (2-D/3-D with reference point on top of the C13 "
+        "hypervolume models, 2-D without), the epsilon indicator and the crowding distance (for every arithmetic, incl. IEEE doubles with NaN) do. "
+        "ElitistSelection keeps the mu best for every tie order. PenalizingEvaluator: for every objective, box, penalty factor and point the stored value is "
+        "f(closest feasible point), the penalised value adds alpha*|x - closest|^2, the closest feasible point is feasible. TournamentSelection: the winner is a "
+        "drawn candidate of best rank, for every stream of draws. Population updates of MO-CMA-ES, steady-state MO-CMA-ES, SMS-EMOA, NSGA-II, NSGA-III "
+        "(generational update), MOEA/D (Tchebycheff replacement in the neighbourhood) and RVEA (reference-vector guided selection + truncation): the result "
+        "has exactly mu members and every member carries point and fitness vectors of a parent or offspring; composed over whole runs (any number of steps, "
+        "arbitrary variation operators and random streams): |population| = mu, value = f(closest feasible point) for every member at every step, and, "
+        "when the variation is followed by the clamp of SBX/polynomial mutation, every point inside the box. libstdc++'s std::partition + erase keeps exactly the "
+        "selected individuals (elitism of the truncation). Steady-state hypervolume monotonicity is a spec-level theorem (hvSpec, two cases). "
+        "Tie: exact correspondence on integer populations for selection with exact flags (which individual the indicator discards), evaluator, tournament "
+        "(rng draws observed), and state-by-state for multi-step histories of updatePopulation() of the real SMSEMOA, SteadyStateMOCMA, MOCMA, "
+        "IndicatorBasedRealCodedNSGAII<HV|Eps|Crowding>, MOEAD, RVEA objects (offspring from the real generateOffspring(), points/fitness overwritten by "
+        "integers); independent oracles for size, solution() mirror, survivors from the pool, rank elitism, hypervolume monotonicity; plus oracle-checked "
+        "runs of the seven real optimizers on ZDT/DTLZ (init with own / fewer / exactly mu / more start points)."),
+  note=TRUST + "NOT proved: (1) steady-state hypervolume monotonicity is not composed end-to-end from the indicator model (it needs "
+       "'the modelled 2-D contribution equals contribSpec on a front', which is tied by correspondence and the hvdecrease oracle on integer histories only); "
+       "(2) the composition 'flags of applySelect have exactly mu marks' -> truncation_keeps_exactly_the_selected is a hypothesis of that theorem (count theorem is about "
+       "the flag list); (3) NSGA3Indicator: the niche-counting loop has an executable model (nsga3Least) but neither theorem nor exact tie (its association step is "
+       "floating point behind a linear solve; compared through the count only, the NSGA-III update itself is the NSGA-II template tied with three other indicators); "
+       "(4) RVEA/MOEA-D: the floating-point parts (cosines, angle-penalised distances, lattice neighbourhoods by std::sort) and the rng draws of the "
+       "tournament enter the model as observed inputs (aux pass of the harness, re-verified in the comparison pass); reference-vector adaptation not modelled; "
+       "(5) variation operators (SBX, polynomial mutation, CMA sampling/step-size adaptation) are arbitrary parameters, their clamp is an assumption read off the "
+       "C++ and checked only by the box oracle of the real runs; BoxConstraintHandler::isFeasible has a 1e-13 tolerance (irrelevant on integers); "
+       "(6) tie orders: std::sort on <= 16 elements is libstdc++'s stable insertion sort, the size-1 heap of HypervolumeContribution2D keeps the last minimal entry "
+       "(libstdc++ push_heap): the generator keeps fronts <= 16; hypervolume indicator without reference in 3-D is compared through the count only "
+       "(documented out-of-range erase in HypervolumeContribution3D::smallest, findings_proposed/C14.md).",
+  technique="Lean 4 proofs about the selection/indicator/evaluator/update models + exact differential correspondence (state by state, observed rng) + oracle-checked runs of the real optimizers (ASan/UBSan)",
   design="§6 C14")
 
 FINISH = dict(level="proof",
-              rule="integer populations (2-3 objectives, 1..14 individuals, duplicates, single-front and many-front populations, every 1 <= mu <= n) for "
-                   "5 indicators; elitist selection on tied keys; optimizer runs: 7 algorithms x ZDT/DTLZ problems x 2-3 objectives x mu in 3..20 x "
+              rule="integer populations (2-3 objectives, 1..14 individuals, duplicates, single-front and many-front populations, every 1 <= mu <= n, fresh / stale / "
+                   "all-true flags before the call) for 5 indicators with exact flags; elitist selection on tied keys; evaluator on in/out/edge/far points; tournaments of "
+                   "size 1..5; update histories (8 algorithm instances, mu 1..9, 1..12 steps, duplicate/dominating/dominated/penalised offspring, with and without reference point); optimizer runs: 7 algorithms x ZDT/DTLZ problems x 2-3 objectives x mu in 3..20 x "
                    "refmode 0/1 x 20..300 steps from one SplitMix64 stream; a selection case is non-trivial if the last front is cut (0 < K); distinct = distinct op text")
 
 LAKE_TARGETS = ["SharkVerif.Props.C14", "drv_c14"]
@@ -131,12 +152,14 @@ def observe_aux(ctx, exe, lines):
 
 def gen_sel(r, ctx):
     ind = r.choice(["hv", "hv", "hvnoref", "crowd", "eps", "nsga3"])
+    # (the harness starts from a fresh container, stale alternating marks or all-true marks depending on (n + mu) % 3)
     m = r.choice([2, 2, 3])
     n = r.range(1, 14)
     w = r.choice([2, 3, 4, 6])
     P = C13.gen_points(r, m, n, w, r.choice([0, 1, 5]), r.choice(["mix", "dup", "front", "front"]))
     mu = r.choice([1, n, r.range(1, n)])
     ctx.hist("sel_indicator", ind); ctx.hist("sel_n", n); ctx.hist("sel_mu_eq_n", mu == n)
+    ctx.hist("sel_flags_before", ["fresh", "stale-alternating", "all-true"][(n + mu) % 3] + ("/mu=n" if mu == n else ""))
     ctx.hist("sel_single_front", len(C13.nondominated(P)) == n)
     ctx.hist("sel_duplicates", len({tuple(p) for p in P}) < n)
     return f"sel {ind} {mu} {m} {n} {C13.flat(P)}"
@@ -161,7 +184,8 @@ def gen_opt(r, ctx, maxsteps):
     seed = r.range(1, 1000)
     ctx.hist("opt_algo", algo); ctx.hist("opt_problem", f"{prob}/{nobj}"); ctx.hist("opt_mu", mu); ctx.hist("opt_refmode", refmode)
     ctx.count("opt_steps_total", steps)
-    return f"opt {algo} {prob} {nvars} {nobj} {mu} {seed} {steps} {refmode}"
+    initmode = r.choice([0, 0, 1, 2, 3]); ctx.hist("opt_initmode", initmode)
+    return f"opt {algo} {prob} {nvars} {nobj} {mu} {seed} {steps} {refmode} {initmode}"
 
 
 def classify(ops, res):
@@ -182,7 +206,7 @@ def shrink(line, fails, budget=40):
     if t[0] == "opt":
         steps = int(t[7])
         while steps > 1 and budget > 0:
-            c = t[:7] + [str(steps // 2)] + t[8:]; budget -= 1
+            c = t[:7] + [str(max(1, steps // 2))] + t[8:]; budget -= 1
             if fails(" ".join(c)): steps //= 2; t = c
             else: break
         return " ".join(t)
@@ -212,8 +236,10 @@ def load_corpus(prefix):
 
 
 def run(ctx):
-    ctx.trusted += ["correspondence harnesses harness/c14.cpp, harness/c14_opt.cpp (independent oracles) + generator checks/c14.py",
-                    "hand-written model Model/MOO.lean (the C++ is modelled, not translated); ranks from Model/Pareto.lean (C13)",
+    ctx.trusted += ["correspondence harnesses harness/c14.cpp, harness/c14_gen.cpp, harness/c14_opt.cpp (independent oracles) + generator checks/c14.py",
+                    "hand-written models Model/MOO.lean, Model/MOOInd.lean, Model/MOOStep.lean (the C++ is modelled, not translated); ranks from Model/Pareto.lean, hypervolume from Model/Hypervolume.lean (C13)",
+                    "observed inputs of the model (rng draws, MOEA/D neighbourhoods, RVEA sub-groups / order of angle-penalised distances) are reported by the real code in a first pass and re-verified in the comparison pass",
+                    "libstdc++ tie behaviour of std::sort (<= 16 elements), push_heap/pop_heap and std::partition is part of the model",
                     "ASan/UBSan runtime for the real code's memory safety (not a theorem)"]
     ctx.assumptions += ["1 <= mu <= population size (mu = 0 makes the C++ loop run forever; mu > n underflows popSize - mu)",
                         "tournament-based optimizers need mu >= 3 (TournamentSelection requires n > tournament size), lattice-based ones mu >= number of objectives",
